@@ -108,7 +108,10 @@ def null_components(chk, prog):
         for n in walk(f.body):
             if n.get('kind') == 'IfStmt':
                 c = kids(n)[0]
-                if _has_nan_test(c) and any(x.get('kind') == 'BreakStmt' for x in walk(kids(n)[1])):
+                from .plscheck import _resolve_flag as _rf
+                # `is NaN` may hide behind integer flags:  nullpc = isnan(conv) || ...;  if (conv < eps || nullpc || iter >= cap)
+                hit = _has_nan_test(c) or any(x.get('kind') == 'DeclRefExpr' and not fe.is_float_type(x) and _has_nan_test(_rf(f, x)) for x in walk(c))
+                if hit and any(x.get('kind') == 'BreakStmt' for x in walk(kids(n)[1])):
                     nan_exits.append(n)
         if not nan_exits:
             chk.instance(R, '%s %s: no `is NaN` exit in the iteration (termination on a null component is C18/L.terminates)' % (f.where, name), 'undecided')
@@ -120,8 +123,11 @@ def null_components(chk, prog):
             if n.get('kind') != 'IfStmt':
                 continue
             c = kids(n)[0]
+            from .plscheck import _resolve_flag, guard_kind
+            c = _resolve_flag(f, c)
             if not _has_nan_test(c):
                 continue
+            gk_ = guard_kind(f, kids(n)[0])
             then = kids(n)[1]
             zs = set()
             only_zeroing = True
@@ -136,6 +142,11 @@ def null_components(chk, prog):
             if zs and only_zeroing:
                 zeroed |= zs
                 san = san or n
+                if gk_ is not None and (gk_[0] or gk_[1]):
+                    # the branch that turns a component into zeros is taken for more than NaN / exactly-zero norms: a component within the rank
+                    # may be replaced too -- whether it can is not decided here
+                    chk.broke('%s: the null-component branch at %s is also taken when %s; that this cannot replace a component within the rank is not decided' %
+                              (name, f.unit.where(n), ' or '.join('`%s`' % x for x in [t_[0] for t_ in gk_[0]] + gk_[1])))
         # vectors handed out after the exit: stores into model->X / copies to parameters
         pn = {p.get('name') for p in f.params}
         handed = set()
